@@ -1,621 +1,8 @@
-//! utilsan: worker that executes IdSet / Arena operation sequences against the real
-//! `/repo/utils` types and an in-worker model. One JSON request per stdin line, one JSON
-//! response per stdout line:
-//!   {"ok":true,"stats":{..}}   or   {"ok":false,"step":i,"what":".."}
-//! Normally built with AddressSanitizer (`--cfg utilsan_asan`): a memory error kills the
-//! process with an "AddressSanitizer" report on stderr; the coordinator turns that into a
-//! failure. Without ASan only the model / alignment / overlap / pattern checks apply.
-
-use serde::Deserialize;
-use serde_json::{Value, json};
-use std::cell::RefCell;
-use std::collections::{BTreeMap, HashMap};
-use std::fmt::Debug;
-use std::hash::Hash;
+//! Sanitizer worker for /repo/utils: one JSON request per line on stdin, one JSON reply per line on stdout.
 use std::io::{BufRead, Write};
-use std::panic::{AssertUnwindSafe, catch_unwind};
-use utils::arena::Arena;
-use utils::arena::arena_ref::Ar;
-use utils::id_set::IdSet;
-
-pub const ASAN: bool = cfg!(utilsan_asan);
-
-thread_local! {
-    static LAST_PANIC: RefCell<Option<String>> = const { RefCell::new(None) };
-    /// index of the operation being executed (reported when an unexpected panic is caught)
-    static STEP: std::cell::Cell<i64> = const { std::cell::Cell::new(-1) };
-}
-
-#[derive(Deserialize, Debug)]
-#[serde(tag = "kind", rename_all = "snake_case")]
-enum Req {
-    Ping,
-    /// deliberate use-after-free in the harness itself: proves the sanitizer is live
-    SelftestUaf,
-    Idset {
-        /// 0 u64 | 1 String | 2 Vec<u8>
-        ty: u8,
-        ops: Vec<SetOp>,
-    },
-    Arena {
-        /// 0 Arena::new() | 1 Arena::default() | 2 with_capacity(0) | 3 (1) | 4 (7) | 5 (64)
-        ctor: u8,
-        allocs: Vec<Alloc>,
-    },
-}
-
-#[derive(Deserialize, Debug, Clone)]
-#[serde(tag = "op", rename_all = "snake_case")]
-enum SetOp {
-    New { dst: u32, dflt: bool },
-    Insert { s: u32, v: u32 },
-    /// try_get_id + contains (+ get_id; on a missing value get_id must panic when `probe`)
-    Lookup { s: u32, v: u32, probe: bool },
-    /// `set[id]`; an id >= len must panic
-    Index { s: u32, id: u32 },
-    /// `set[id] = set[id].clone()` (hash-preserving mutation, the type's stated requirement)
-    IndexMut { s: u32, id: u32 },
-    Iter { s: u32, by_ref: bool },
-    Debug { s: u32 },
-    Len { s: u32 },
-    Clear { s: u32 },
-    Clone { s: u32, dst: u32 },
-    Drop { s: u32 },
-    /// consume the set; `take` = stop after that many items and drop the iterator
-    IntoIter { s: u32, take: Option<u32> },
-}
-
-#[derive(Deserialize, Debug, Clone, Copy)]
-struct Alloc {
-    size: u32,
-    align: u32,
-}
-
-// ---------------------------------------------------------------------------------------------
-// IdSet
-
-trait Elem: Hash + Eq + Clone + Debug + Default {
-    fn make(v: u32) -> Self;
-}
-
-const LENS: [usize; 12] = [1, 2, 3, 7, 8, 15, 16, 17, 24, 40, 100, 300];
-
-impl Elem for u64 {
-    fn make(v: u32) -> u64 {
-        match v {
-            0 => 0,
-            1 => u64::MAX,
-            2 => 1,
-            _ => (v as u64).wrapping_mul(0x9E37_79B9_7F4A_7C15),
-        }
-    }
-}
-
-impl Elem for String {
-    fn make(v: u32) -> String {
-        if v == 0 {
-            return String::new();
-        }
-        let mut s = format!("s{v}|");
-        let want = LENS[(v as usize) % LENS.len()];
-        let fill = (b'a' + (v % 26) as u8) as char;
-        while s.len() < want {
-            s.push(fill);
-        }
-        s
-    }
-}
-
-impl Elem for Vec<u8> {
-    fn make(v: u32) -> Vec<u8> {
-        if v == 0 {
-            return Vec::new();
-        }
-        let mut b = v.to_le_bytes().to_vec();
-        b.push(0xFF);
-        let want = LENS[(v as usize * 5 + 3) % LENS.len()];
-        while b.len() < want {
-            b.push((v as u8).wrapping_mul(31).wrapping_add(b.len() as u8));
-        }
-        b
-    }
-}
-
-#[derive(Clone)]
-struct Model<T> {
-    map: HashMap<T, u32>,
-    vec: Vec<T>,
-}
-
-impl<T: Elem> Model<T> {
-    fn new() -> Self {
-        Model { map: HashMap::new(), vec: Vec::new() }
-    }
-    fn insert(&mut self, x: T) -> u32 {
-        if let Some(&id) = self.map.get(&x) {
-            return id;
-        }
-        let id = self.vec.len() as u32;
-        self.map.insert(x.clone(), id);
-        self.vec.push(x);
-        id
-    }
-    fn debug_string(&self) -> String {
-        let mut s = String::from("{");
-        for (i, x) in self.vec.iter().enumerate() {
-            if i > 0 {
-                s.push_str(", ");
-            }
-            s.push_str(&format!("{x:?}"));
-        }
-        s.push('}');
-        s
-    }
-}
-
-fn short<T: Debug>(x: &T) -> String {
-    let s = format!("{x:?}");
-    if s.len() > 60 { format!("{}..({} chars)", &s[..50], s.len()) } else { s }
-}
-
-/// Every read-only observation of the set must agree with the model.
-fn check_all<T: Elem>(s: &IdSet<T>, m: &Model<T>) -> Result<(), String> {
-    if s.len() != m.vec.len() {
-        return Err(format!("len() = {} but the model holds {}", s.len(), m.vec.len()));
-    }
-    if s.is_empty() != m.vec.is_empty() {
-        return Err(format!("is_empty() = {} with model length {}", s.is_empty(), m.vec.len()));
-    }
-    for (i, x) in m.vec.iter().enumerate() {
-        let got = &s[i as u32];
-        if got != x {
-            return Err(format!("set[{i}] = {} but the model has {}", short(got), short(x)));
-        }
-        let id = s.try_get_id(x);
-        if id != Some(i as u32) {
-            return Err(format!("try_get_id(value of id {i}) = {id:?}"));
-        }
-        if !s.contains(x) {
-            return Err(format!("contains(value of id {i}) = false"));
-        }
-    }
-    let mut n = 0usize;
-    for (i, x) in s.iter().enumerate() {
-        match m.vec.get(i) {
-            Some(y) if y == x => {}
-            other => return Err(format!("iter() item {i} = {} but the model has {}", short(x), other.map(short).unwrap_or("nothing".into()))),
-        }
-        n += 1;
-    }
-    if n != m.vec.len() {
-        return Err(format!("iter() yielded {n} items, model holds {}", m.vec.len()));
-    }
-    Ok(())
-}
-
-fn panics<R>(f: impl FnOnce() -> R) -> bool {
-    catch_unwind(AssertUnwindSafe(f)).is_err()
-}
-
-struct SetStats {
-    ops: u64,
-    expected_panics: u64,
-    max_len: usize,
-    checks: u64,
-}
-
-fn run_idset<T: Elem>(ops: &[SetOp]) -> Result<Value, (usize, String)> {
-    let mut slots: BTreeMap<u32, (IdSet<T>, Model<T>)> = BTreeMap::new();
-    let mut st = SetStats { ops: 0, expected_panics: 0, max_len: 0, checks: 0 };
-    for (i, op) in ops.iter().enumerate() {
-        STEP.with(|c| c.set(i as i64));
-        st.ops += 1;
-        let fail = |what: String| (i, what);
-        let mut touched: Vec<u32> = vec![];
-        macro_rules! slot {
-            ($s:expr) => {
-                match slots.get_mut($s) {
-                    Some(x) => x,
-                    None => return Err(fail(format!("request refers to dead slot {}", $s))),
-                }
-            };
-        }
-        match op {
-            SetOp::New { dst, dflt } => {
-                let set: IdSet<T> = if *dflt { IdSet::default() } else { IdSet::new() };
-                slots.insert(*dst, (set, Model::new()));
-                touched.push(*dst);
-            }
-            SetOp::Insert { s, v } => {
-                let (set, m) = slot!(s);
-                let x = T::make(*v);
-                let want = m.insert(x.clone());
-                let got = set.insert(x);
-                if got != want {
-                    return Err(fail(format!("insert(value {v}) returned id {got}, model says {want}")));
-                }
-                touched.push(*s);
-            }
-            SetOp::Lookup { s, v, probe } => {
-                let (set, m) = slot!(s);
-                let x = T::make(*v);
-                let want = m.map.get(&x).copied();
-                let got = set.try_get_id(&x);
-                if got != want {
-                    return Err(fail(format!("try_get_id(value {v}) = {got:?}, model says {want:?}")));
-                }
-                if set.contains(&x) != want.is_some() {
-                    return Err(fail(format!("contains(value {v}) = {}, model says {}", set.contains(&x), want.is_some())));
-                }
-                match want {
-                    Some(id) => {
-                        if set.get_id(&x) != id {
-                            return Err(fail(format!("get_id(value {v}) = {}, model says {id}", set.get_id(&x))));
-                        }
-                    }
-                    None if *probe => {
-                        // documented: "this will panic if value is not found"
-                        if !panics(|| set.get_id(&x)) {
-                            return Err(fail(format!("get_id(missing value {v}) did not panic")));
-                        }
-                        st.expected_panics += 1;
-                    }
-                    None => {}
-                }
-                touched.push(*s);
-            }
-            SetOp::Index { s, id } => {
-                let (set, m) = slot!(s);
-                match m.vec.get(*id as usize) {
-                    Some(want) => {
-                        let got = &set[*id];
-                        if got != want {
-                            return Err(fail(format!("set[{id}] = {}, model has {}", short(got), short(want))));
-                        }
-                    }
-                    None => {
-                        let r = catch_unwind(AssertUnwindSafe(|| set[*id].clone()));
-                        if let Ok(x) = r {
-                            return Err(fail(format!("set[{id}] with len {} did not panic and yielded {}", m.vec.len(), short(&x))));
-                        }
-                        st.expected_panics += 1;
-                    }
-                }
-                touched.push(*s);
-            }
-            SetOp::IndexMut { s, id } => {
-                let (set, m) = slot!(s);
-                if (*id as usize) < m.vec.len() {
-                    let x = set[*id].clone();
-                    set[*id] = x;
-                } else {
-                    let r = catch_unwind(AssertUnwindSafe(|| {
-                        let slot: &mut T = &mut set[*id];
-                        slot.clone()
-                    }));
-                    if r.is_ok() {
-                        return Err(fail(format!("&mut set[{id}] with len {} did not panic", m.vec.len())));
-                    }
-                    st.expected_panics += 1;
-                }
-                touched.push(*s);
-            }
-            SetOp::Iter { s, by_ref } => {
-                let (set, m) = slot!(s);
-                let items: Vec<&T> = if *by_ref {
-                    let mut v = vec![];
-                    for x in &*set {
-                        v.push(x);
-                    }
-                    v
-                } else {
-                    set.iter().collect()
-                };
-                if items.len() != m.vec.len() || items.iter().zip(m.vec.iter()).any(|(a, b)| *a != b) {
-                    return Err(fail(format!("iteration yielded {} items that differ from the model's {} items in insertion order", items.len(), m.vec.len())));
-                }
-                touched.push(*s);
-            }
-            SetOp::Debug { s } => {
-                let (set, m) = slot!(s);
-                let got = format!("{set:?}");
-                let want = m.debug_string();
-                if got != want {
-                    return Err(fail(format!("Debug output {} differs from the model's {}", short(&got), short(&want))));
-                }
-                touched.push(*s);
-            }
-            SetOp::Len { s } => {
-                let (set, m) = slot!(s);
-                if set.len() != m.vec.len() || set.is_empty() != m.vec.is_empty() {
-                    return Err(fail(format!("len() = {}, is_empty() = {}, model length {}", set.len(), set.is_empty(), m.vec.len())));
-                }
-            }
-            SetOp::Clear { s } => {
-                let (set, m) = slot!(s);
-                set.clear();
-                m.map.clear();
-                m.vec.clear();
-                touched.push(*s);
-            }
-            SetOp::Clone { s, dst } => {
-                let (set, m) = slot!(s);
-                let c = (set.clone(), m.clone());
-                slots.insert(*dst, c);
-                touched.push(*s);
-                touched.push(*dst);
-            }
-            SetOp::Drop { s } => {
-                if slots.remove(s).is_none() {
-                    return Err(fail(format!("request refers to dead slot {s}")));
-                }
-            }
-            SetOp::IntoIter { s, take } => {
-                let Some((set, m)) = slots.remove(s) else { return Err(fail(format!("request refers to dead slot {s}"))) };
-                let mut it = set.into_iter();
-                let limit = take.map(|t| t as usize).unwrap_or(usize::MAX);
-                let mut k = 0usize;
-                while k < limit {
-                    match it.next() {
-                        None => break,
-                        Some(x) => {
-                            match m.vec.get(k) {
-                                Some(y) if *y == x => {}
-                                other => return Err(fail(format!("into_iter() item {k} = {}, model has {}", short(&x), other.map(short).unwrap_or("nothing".into())))),
-                            }
-                            k += 1;
-                        }
-                    }
-                }
-                if take.is_none() && k != m.vec.len() {
-                    return Err(fail(format!("into_iter() yielded {k} items, model holds {}", m.vec.len())));
-                }
-                drop(it);
-            }
-        }
-        for t in touched {
-            if let Some((set, m)) = slots.get(&t) {
-                st.checks += 1;
-                st.max_len = st.max_len.max(m.vec.len());
-                if let Err(e) = check_all(set, m) {
-                    return Err((i, format!("after this op, slot {t}: {e}")));
-                }
-            }
-        }
-    }
-    // end of sequence: every survivor must still agree with its model, then is dropped
-    for (t, (set, m)) in slots.iter() {
-        st.checks += 1;
-        if let Err(e) = check_all(set, m) {
-            return Err((ops.len(), format!("at end of sequence, slot {t}: {e}")));
-        }
-    }
-    let live = slots.len();
-    drop(slots);
-    Ok(json!({"ops": st.ops, "expected_panics": st.expected_panics, "max_len": st.max_len, "full_checks": st.checks, "live_at_end": live}))
-}
-
-// ---------------------------------------------------------------------------------------------
-// Arena
-
-/// byte j of the k-th allocation
-#[inline]
-fn pat(k: u32, j: usize) -> u8 {
-    (k.wrapping_mul(131).wrapping_add(17) as usize ^ j.wrapping_mul(7) ^ (j >> 8)) as u8
-}
-
-trait Pat: Copy + PartialEq + 'static {
-    const PAYLOAD: usize;
-    fn build(k: u32) -> Self;
-    fn bytes(&self) -> &[u8];
-}
-
-macro_rules! pat_types {
-    ($($name:ident $a:literal),*) => {$(
-        #[repr(align($a))]
-        #[derive(Clone, Copy, PartialEq, Eq)]
-        struct $name<const S: usize>([u8; S]);
-        impl<const S: usize> Pat for $name<S> {
-            const PAYLOAD: usize = S;
-            fn build(k: u32) -> Self {
-                let mut v = $name([0u8; S]);
-                for j in 0..S {
-                    v.0[j] = pat(k, j);
-                }
-                v
-            }
-            fn bytes(&self) -> &[u8] {
-                &self.0
-            }
-        }
-    )*};
-}
-pat_types!(A1 1, A2 2, A4 4, A8 8, A16 16, A32 32, A64 64);
-
-fn verify(bytes: &[u8], k: u32, full: bool) -> Result<(), String> {
-    let n = bytes.len();
-    let bad = |j: usize| format!("allocation #{k} byte {j} reads {:#04x}, pattern is {:#04x}", bytes[j], pat(k, j));
-    if full || n <= 256 {
-        for j in 0..n {
-            if bytes[j] != pat(k, j) {
-                return Err(bad(j));
-            }
-        }
-    } else {
-        for j in (0..64).chain(n - 64..n).chain((64..n - 64).step_by(97)) {
-            if bytes[j] != pat(k, j) {
-                return Err(bad(j));
-            }
-        }
-    }
-    Ok(())
-}
-
-struct Rec<'a> {
-    addr: usize,
-    size_of: usize,
-    align: usize,
-    check: Box<dyn Fn(bool) -> Result<(), String> + 'a>,
-}
-
-fn alloc_one<'a, T: Pat>(arena: &'a Arena, k: u32, recs: &mut Vec<Rec<'a>>) -> Result<(), String> {
-    let ar: Ar<'a, T> = arena.alloc(T::build(k));
-    let addr = {
-        let r: &T = &ar;
-        r as *const T as usize
-    };
-    let size_of = std::mem::size_of::<T>();
-    let align = std::mem::align_of::<T>();
-    if addr == 0 || addr % align != 0 {
-        return Err(format!("allocation #{k} (size {size_of}, align {align}) is at address {addr:#x}, which is {} mod {align}", addr % align));
-    }
-    if format!("{ar:?}") != format!("{:#x}", addr) {
-        return Err(format!("allocation #{k}: Ar Debug prints {ar:?}, address is {addr:#x}"));
-    }
-    if size_of > 0 {
-        for (j, r) in recs.iter().enumerate() {
-            if r.size_of > 0 && addr < r.addr + r.size_of && r.addr < addr + size_of {
-                return Err(format!(
-                    "allocation #{k} [{addr:#x}, +{size_of}) overlaps live allocation #{j} [{:#x}, +{}) (align {})",
-                    r.addr, r.size_of, r.align
-                ));
-            }
-        }
-    }
-    let copy = ar; // Ar is Copy: the copy must stay valid as well
-    let check = Box::new(move |full: bool| -> Result<(), String> {
-        let t: &T = &copy;
-        verify(t.bytes(), k, full)?;
-        if full && !(ar == copy) {
-            return Err(format!("allocation #{k}: Ar != its own copy"));
-        }
-        Ok(())
-    });
-    check(true)?;
-    recs.push(Rec { addr, size_of, align, check });
-    Ok(())
-}
-
-macro_rules! by_size {
-    ($ty:ident, $size:expr, $($args:expr),*) => {
-        match $size {
-            0 => alloc_one::<$ty<0>>($($args),*),
-            1 => alloc_one::<$ty<1>>($($args),*),
-            2 => alloc_one::<$ty<2>>($($args),*),
-            3 => alloc_one::<$ty<3>>($($args),*),
-            8 => alloc_one::<$ty<8>>($($args),*),
-            24 => alloc_one::<$ty<24>>($($args),*),
-            100 => alloc_one::<$ty<100>>($($args),*),
-            4096 => alloc_one::<$ty<4096>>($($args),*),
-            70000 => alloc_one::<$ty<70000>>($($args),*),
-            other => Err(format!("unsupported payload size {other}")),
-        }
-    };
-}
-
-fn run_arena(ctor: u8, allocs: &[Alloc]) -> Result<Value, (usize, String)> {
-    let arena = match ctor {
-        0 => Arena::new(),
-        1 => Arena::default(),
-        2 => Arena::with_capacity(0),
-        3 => Arena::with_capacity(1),
-        4 => Arena::with_capacity(7),
-        5 => Arena::with_capacity(64),
-        other => return Err((0, format!("unsupported constructor {other}"))),
-    };
-    let mut recs: Vec<Rec<'_>> = Vec::with_capacity(allocs.len());
-    let mut jumps = 0u64; // address discontinuities = observed buffer switches (approximate)
-    let mut bytes = 0u64;
-    for (i, a) in allocs.iter().enumerate() {
-        STEP.with(|c| c.set(i as i64));
-        let k = i as u32;
-        let r = match a.align {
-            1 => by_size!(A1, a.size, &arena, k, &mut recs),
-            2 => by_size!(A2, a.size, &arena, k, &mut recs),
-            4 => by_size!(A4, a.size, &arena, k, &mut recs),
-            8 => by_size!(A8, a.size, &arena, k, &mut recs),
-            16 => by_size!(A16, a.size, &arena, k, &mut recs),
-            32 => by_size!(A32, a.size, &arena, k, &mut recs),
-            64 => by_size!(A64, a.size, &arena, k, &mut recs),
-            other => Err(format!("unsupported alignment {other}")),
-        };
-        if let Err(e) = r {
-            return Err((i, e));
-        }
-        let n = recs.len();
-        if n >= 2 {
-            let (p, c) = (&recs[n - 2], &recs[n - 1]);
-            if c.addr < p.addr + p.size_of || c.addr >= p.addr + p.size_of + c.align.max(1) {
-                jumps += 1;
-            }
-        }
-        bytes += recs[n - 1].size_of as u64;
-        // every earlier allocation still reads back its pattern (large ones sampled; all of
-        // them are read completely at the end)
-        for r in recs[..n - 1].iter() {
-            if let Err(e) = (r.check)(false) {
-                return Err((i, format!("after allocation #{k}: {e}")));
-            }
-        }
-    }
-    for r in recs.iter() {
-        if let Err(e) = (r.check)(true) {
-            return Err((allocs.len(), format!("at end of sequence: {e}")));
-        }
-    }
-    let n = recs.len();
-    drop(recs);
-    drop(arena);
-    Ok(json!({"allocs": n, "address_jumps": jumps, "bytes": bytes}))
-}
-
-// ---------------------------------------------------------------------------------------------
-
-fn handle(req: Req) -> Value {
-    let r = match req {
-        Req::Ping => Ok(json!({"build": if ASAN { "asan" } else { "plain" }})),
-        Req::SelftestUaf => {
-            if !ASAN {
-                Err((0, "not an ASan build".to_string()))
-            } else {
-                let v = vec![7u8; 64];
-                let p = v.as_ptr();
-                drop(v);
-                // deliberate: the sanitizer must kill the process here
-                let x = unsafe { std::ptr::read_volatile(p) };
-                Ok(json!({"survived": x}))
-            }
-        }
-        Req::Idset { ty, ops } => match ty {
-            0 => run_idset::<u64>(&ops),
-            1 => run_idset::<String>(&ops),
-            2 => run_idset::<Vec<u8>>(&ops),
-            other => Err((0, format!("unsupported element type {other}"))),
-        },
-        Req::Arena { ctor, allocs } => run_arena(ctor, &allocs),
-    };
-    match r {
-        Ok(stats) => json!({"ok": true, "stats": stats}),
-        Err((step, what)) => json!({"ok": false, "step": step, "what": what}),
-    }
-}
 
 fn main() {
-    std::panic::set_hook(Box::new(|info| {
-        let msg = if let Some(s) = info.payload().downcast_ref::<&str>() {
-            (*s).to_string()
-        } else if let Some(s) = info.payload().downcast_ref::<String>() {
-            s.clone()
-        } else {
-            "<non-string panic>".to_string()
-        };
-        let loc = info.location().map(|l| format!("{}:{}", l.file(), l.line())).unwrap_or_default();
-        // a non-unwinding panic (debug-assertion "unsafe precondition" checks, misaligned pointer
-        // dereference) aborts the process after this hook: stderr is where its message survives.
-        // The documented panics the sequences provoke on purpose are printed too (harmless).
-        eprintln!("utilsan: panic: {msg} at {loc}");
-        LAST_PANIC.with(|p| *p.borrow_mut() = Some(format!("{msg} at {loc}")));
-    }));
+    utilsan::install_hook();
     let stdin = std::io::stdin();
     let stdout = std::io::stdout();
     for line in stdin.lock().lines() {
@@ -623,20 +10,7 @@ fn main() {
         if line.trim().is_empty() {
             continue;
         }
-        let resp = match serde_json::from_str::<Req>(&line) {
-            Err(e) => json!({"ok": false, "step": 0, "what": format!("bad request: {e}")}),
-            Ok(req) => {
-                LAST_PANIC.with(|p| *p.borrow_mut() = None);
-                STEP.with(|c| c.set(-1));
-                match catch_unwind(AssertUnwindSafe(|| handle(req))) {
-                    Ok(v) => v,
-                    Err(_) => {
-                        let m = LAST_PANIC.with(|p| p.borrow_mut().take()).unwrap_or_else(|| "<unknown>".into());
-                        json!({"ok": false, "step": STEP.with(|c| c.get()), "what": format!("unexpected panic: {m}")})
-                    }
-                }
-            }
-        };
+        let resp = utilsan::serve_line(&line);
         let mut out = stdout.lock();
         let _ = writeln!(out, "{resp}");
         let _ = out.flush();
